@@ -47,7 +47,7 @@ for p in props:
                               'text': 'bounded symbolic checking of the real code: ' + text + '. The verdict is the SAT/SMT solver\'s over all values inside the bounds listed in the evidence file; nothing is claimed outside them.',
                               'design_ref': 'DESIGN.md section 4 (%s)' % pid},
             'level_note': 'trusted: clang-14 -O1 IR / goto-cc front end as the semantics of the C source, cbmc 6.11 (symex, partial-order encoding for --mm sc/tso, SAT back end) or z3, my IR-to-cell-memory translator (guarded by default-arm assertions and per-run witness twins), the environment stubs and assumptions listed in the evidence file',
-            'technique': 'bounded model checking of the real code with ' + {'E1': 'CBMC on the C source', 'E2': 'CBMC threads over an IR-derived cell-memory encoding (all interleavings, SC/TSO)', 'E3': 'z3 over the extracted x86-64 assembly'}.get(eng.split('+')[0]) + ('' if '+' not in eng else ' and ' + eng.split('+')[1]),
+            'technique': 'bounded model checking of the real code (solver verdict over all values inside the stated bounds) with ' + ' and '.join({'E1': 'CBMC on the C source (SAT; cvc5 for the C17 counter step), incl. rely/guarantee steps against a symbolic environment', 'E2': 'CBMC threads over an IR-derived cell-memory encoding (all interleavings, SC/TSO)', 'E3': 'z3 over the extracted x86-64 assembly'}[e] for e in eng.split('+')),
         })
     else:
         na.append({'property_id': pid, 'reason': 'check still under construction in this session (planned engine: %s, see DESIGN.md section 4); not claimed yet' % LEVEL[pid][0]})
